@@ -258,6 +258,8 @@ func init() {
 		core.Registry[id].Uses = append(core.Registry[id].Uses, core.Use{E: eConc, Quick: n[0], Thorough: n[1]})
 		core.Registry[id].Rule += " Plus concurrent histories (contended caller-supplied ids, concurrent deletes of one id) checked for linearizability and audited at quiescence."
 	}
+	core.Registry["C07"].Uses = append(core.Registry["C07"].Uses, core.Use{E: &core.Engine{Name: "conc-oversized", Run: RunConcOversized}, Quick: 6, Thorough: 60})
+	core.Registry["C07"].Rule += " Plus an Insert beyond badger's default transaction size next to two counting readers (none or all of the batch is ever visible; a refused batch leaves nothing)."
 	eReadFaults := &core.Engine{Name: "read-faults", Run: RunReadFaults}
 	for id, n := range map[string][2]int{"C08": {60, 1500}, "C01": {40, 1000}, "C02": {40, 1000}} {
 		core.Registry[id].Uses = append(core.Registry[id].Uses, core.Use{E: eReadFaults, Quick: n[0], Thorough: n[1]})
